@@ -4,7 +4,8 @@ Closed formulas over the constant tables of the current tree (DESIGN.md section 
 obligation evaluated exhaustively on the tables extracted from the working tree on this run."""
 import re
 import sys
-from pyvc.driver import main, Ground
+import os
+from pyvc.driver import main, Ground, native_bounded, VERIF
 from pyvc.tables import load_tables, literal_keys
 
 CATS2 = ('kex', 'key', 'enc', 'mac')
@@ -154,6 +155,14 @@ def g4_broken(repo):
     return out
 
 
+def custom_conformant(ip, runner):
+    from contracts import c17_native
+    code = c17_native.NATIVE % {'native': os.path.join(VERIF, 'native')}
+    return [native_bounded(runner, 'conformant-server', 'a server configured exactly per a built-in server policy (required and optional host keys with the listed key / CA sizes, the listed group-exchange modulus) shows no algorithm failure in a standard audit and passes that policy; also when audited after a weak server in the same run',
+                           code, 'every built-in server policy x {required host keys only, optional ones offered too} through the real probes against the fake server; the last three policies after weak targets with 1 and 2 worker threads',
+                           'ssh_audit:main (conformant server, fake network)')]
+
+
 def build(chk, ip, runner):
     chk.design_ref = 'DESIGN.md section 5 C17'
     chk.explanation = ('closed formulas over the constant tables of the current tree, one ground obligation per '
@@ -165,6 +174,7 @@ def build(chk, ip, runner):
         Ground('G4-broken-primitives', g4_broken, 'every entry whose name contains a primitive branded broken carries at least one failure'),
     ]
     chk.exhaustive = True
+    chk.customs = [custom_conformant]
     chk.trusted = ['CPython import of the repository modules to read the constant tables', 'the token table of G4 (transcribed from the property statement)']
     chk.not_decided = ['"a peer configured exactly per a built-in policy shows no failure in a standard audit" is the composition of G3 '
                        'with the output_algorithm contract of C02/C03 ([fail] emitted iff non-empty failure cell) and the size bands of C11/C12']
